@@ -138,7 +138,7 @@ def empty_structured_array(
     struct_array = np.empty((n), dtype=dtype)
     if n == 0:
         return struct_array
-    struct_array[names] = config.livepoints.default_float_value
+    struct_array[list(names)] = config.livepoints.default_float_value
     if non_sampling_parameters:
         try:
             for nm, v in zip(
